@@ -247,9 +247,20 @@ def schema(ctx, d3):
                     kc = kind.value if isinstance(kind, ast.Constant) else None
                     if kc is None and isinstance(kind, ast.Name):
                         vals = env.get(kind.id, [])
-                        # kind computed as `0 if isinstance(index, int) else 1` or constants 2 / 3 / None
+                        # kind computed as `0 if isinstance(<index>, int) else 1` or constants 2 / 3 / None
                         texts = {src(x) for x in vals}
-                        good = all(re.match(r'^(0 if isa\(index, int\) else 1|0 if isinstance\(index, int\) else 1|2|3|index = None|None)$', s_) for s_ in texts)
+                        isa_names = {'isinstance'} | {k_ for k_, v_ in env.items() if any(src(x) == 'isinstance' for x in v_)}
+
+                        def kind_ok(x):
+                            if isinstance(x, ast.Constant):
+                                return x.value in (2, 3, None)
+                            if isinstance(x, ast.IfExp) and isinstance(x.body, ast.Constant) and x.body.value == 0 \
+                                    and isinstance(x.orelse, ast.Constant) and x.orelse.value == 1 and isinstance(x.test, ast.Call) \
+                                    and src(x.test.func) in isa_names and len(x.test.args) == 2 and src(x.test.args[1]) == 'int' \
+                                    and src(x.test.args[0]) == src(idx):
+                                return True
+                            return False
+                        good = bool(vals) and all(kind_ok(x) for x in vals)
                         if good:
                             d3.ok(f.qualname, 'kind is computed from the type of the index (%s)' % sorted(texts), f, node)
                         else:
@@ -265,8 +276,22 @@ def schema(ctx, d3):
                         d3.ok(f.qualname, 'entry (%s, %s) agrees with the reader (kind 0 <=> integer position)' % (src(idx), src(kind)), f, node)
     # the reader: kind 0 uses dct.get(index) ; kinds 1-3 iterate
     r = prog.func(IX, 'get_sparse_chemical_data')
-    txt = ' '.join(ast.unparse(r.node).split())
-    if 'if kind == 0: return dct.get(index, 0.0)' in txt and 'elif kind == 3: return np.array([dct.get(i, 0.0) for i in index])' in txt:
+    ip, kp = r.params[1], r.params[2]
+    reader = {}
+    for node in walk_no_nested(r.node):
+        if isinstance(node, ast.If) and isinstance(node.test, ast.Compare) and src(node.test.left) == kp and isinstance(node.test.comparators[0], ast.Constant):
+            ret = [b for b in node.body if isinstance(b, ast.Return)]
+            if ret:
+                reader[node.test.comparators[0].value] = ret[0].value
+    r0, r3 = reader.get(0), reader.get(3)
+    ok0 = isinstance(r0, ast.Call) and isinstance(r0.func, ast.Attribute) and r0.func.attr == 'get' and r0.args and src(r0.args[0]) == ip
+    ok3 = False
+    if r3 is not None:
+        comps = [x for x in ast.walk(r3) if isinstance(x, ast.ListComp)]
+        ok3 = bool(comps) and src(comps[0].generators[0].iter) == ip and isinstance(comps[0].elt, ast.Call) \
+            and isinstance(comps[0].elt.func, ast.Attribute) and comps[0].elt.func.attr == 'get' \
+            and src(comps[0].elt.args[0]) == src(comps[0].generators[0].target)
+    if ok0 and ok3:
         d3.ok('get_sparse_chemical_data', 'reader: kind 0 -> dct.get(index); kind 3 -> one lookup per listed position', r)
     else:
         d3.fail('get_sparse_chemical_data', 'reader-changed', 'the reader no longer interprets kind 0 / 3 as (one position / list of positions)', r, r.node)
